@@ -118,17 +118,85 @@ Proof.
       rewrite Hd. unfold spec_code_allowed. rewrite G1, G2, G3, G4. cbn [andb N.eqb Pos.eqb].
       rewrite <- (rule_passes_spec cfg _ G), R.
       assert (E : (now <=? s_lifetime s0) = true) by (apply Z.leb_le; exact L). rewrite E. cbn [andb].
-      destruct D as [[Hlt [Hrt [jerr [tok [dur [-> [_ Hc]]]]]]]|[Hge [_ [_ [[j [a [-> Hv]]] Hc]]]]].
+      destruct D as [[Hlt [Hrt [jerr [tok [dur [-> [_ Hc]]]]]]]|[Hge [_ [_ [[j [a [-> [Hv1 Hv2]]]] Hc]]]]].
       * assert (E2 : (s_refresh s0 <? now) = true) by (apply Z.ltb_lt; exact Hlt). rewrite E2, Hc.
         apply is_nil_false in Hrt. rewrite Hrt. cbn. rewrite str_eqb_refl. reflexivity.
       * assert (E2 : (s_refresh s0 <? now) = false) by (apply Z.ltb_ge; exact Hge). rewrite E2, Hc.
-        cbn. rewrite str_eqb_refl. destruct p; [reflexivity|]. destruct (Hv eq_refl) as [-> ->]. reflexivity.
+        cbn. rewrite str_eqb_refl. destruct p; [reflexivity | |].
+        -- rewrite Hv1 by discriminate. rewrite (Hv2 eq_refl). reflexivity.
+        -- rewrite Hv1 by discriminate. reflexivity.
     + cbn [negb andb]. destruct Sh as [[St Bo]|[St Bo]]; rewrite Bo.
       * rewrite St. reflexivity.
       * apply orb_true_iff. right. apply N.leb_le. exact St.
   - apply forallb_forall. intros [|s'] Hin; [reflexivity|].
     destruct (sign_in_route_sets lower _ _ _ _ _ _ _ _ Hin) as [s0 [-> [_ [He [Hr [Hl Hs]]]]]].
     apply derived_from_of; assumption.
+Qed.
+
+(* the same against any IdP log that contains the calls this request makes (a batch log) *)
+Lemma si_holds_model_calls cfg p now rq c rr vr calls :
+  rule_guard lower cfg = true ->
+  (forall x, In x (r_calls (sign_in_route lower cfg p now rq c rr vr)) -> mem_call x calls = true) ->
+  si_holds lower cfg p now rq c rr vr (with_calls (si_obs_of (sign_in_route lower cfg p now rq c rr vr)) calls) = true.
+Proof.
+  intros G Hcalls. unfold si_holds, si_obs_of, with_calls.
+  cbn [so_has_code so_status so_code so_ops so_calls so_leak so_page].
+  set (r := sign_in_route lower cfg p now rq c rr vr) in *.
+  apply andb_true_iff. split.
+  - pose proof (response_shape lower cfg p now rq c rr vr) as Sh. cbv zeta in Sh. fold r in Sh.
+    destruct (r_code r) as [s|] eqn:Rc; cbn [is_some].
+    + destruct Sh as [St _]. rewrite St.
+      destruct (code_sound lower _ _ _ _ _ _ _ _ Rc) as [[G1 [G2 [G3 [G4 _]]]] [s0 [-> [L [R [Em [Li [Rt [_ D]]]]]]]]].
+      fold r in D.
+      assert (Hd : derived_from now (CkSealed KCookie s0) s = true).
+      { apply derived_from_of; try assumption.
+        destruct D as [[Hlt _]|[_ [Heq _]]]; [intros; lia | intros _; exact Heq]. }
+      rewrite Hd. unfold spec_code_allowed. rewrite G1, G2, G3, G4. cbn [andb N.eqb Pos.eqb].
+      rewrite <- (rule_passes_spec cfg _ G), R.
+      assert (E : (now <=? s_lifetime s0) = true) by (apply Z.leb_le; exact L). rewrite E. cbn [andb].
+      destruct D as [[Hlt [Hrt [jerr [tok [dur [-> [_ Hc]]]]]]]|[Hge [_ [_ [[j [a [-> [Hv1 Hv2]]]] Hc]]]]].
+      * assert (E2 : (s_refresh s0 <? now) = true) by (apply Z.ltb_lt; exact Hlt). rewrite E2.
+        rewrite (Hcalls (CallRefresh (s_rtok s0))) by (rewrite Hc; left; reflexivity).
+        apply is_nil_false in Hrt. rewrite Hrt. reflexivity.
+      * assert (E2 : (s_refresh s0 <? now) = false) by (apply Z.ltb_ge; exact Hge). rewrite E2.
+        rewrite (Hcalls (CallValidate (s_access s0))) by (rewrite Hc; left; reflexivity).
+        cbn. destruct p; [reflexivity | |].
+        -- rewrite Hv1 by discriminate. rewrite (Hv2 eq_refl). reflexivity.
+        -- rewrite Hv1 by discriminate. reflexivity.
+    + cbn [negb andb]. destruct Sh as [[St Bo]|[St Bo]]; rewrite Bo.
+      * rewrite St. reflexivity.
+      * apply orb_true_iff. right. apply N.leb_le. exact St.
+  - apply forallb_forall. intros [|s'] Hin; [reflexivity|].
+    destruct (sign_in_route_sets lower _ _ _ _ _ _ _ _ Hin) as [s0 [-> [_ [He [Hr [Hl Hs]]]]]].
+    apply derived_from_of; assumption.
+Qed.
+
+(* ... and the coalesced refresh follower, provided the IdP's answer for its refresh token is
+   positive and the batch log shows a refresh call for that token *)
+Lemma si_holds_follower cfg p now rq c rr vr r calls :
+  rule_guard lower cfg = true ->
+  sign_in_route_follower lower cfg now rq c = Some r ->
+  refresh_ok_reply rr = true ->
+  (forall s0, c = CkSealed KCookie s0 -> mem_call (CallRefresh (s_rtok s0)) calls = true) ->
+  si_holds lower cfg p now rq c rr vr (with_calls (si_obs_of r) calls) = true.
+Proof.
+  intros G F Rok Hcalls. unfold si_holds, si_obs_of, with_calls.
+  cbn [so_has_code so_status so_code so_ops so_calls so_leak so_page].
+  apply andb_true_iff. split.
+  - pose proof (follower_shape lower _ _ _ _ _ F) as Sh.
+    destruct (r_code r) as [s|] eqn:Rc; cbn [is_some].
+    + destruct Sh as [St _]. rewrite St.
+      destruct (follower_code_sound lower _ _ _ _ _ _ F Rc) as [G1 [G2 [G3 [G4 [-> [L [R [T [RP _]]]]]]]]].
+      assert (Hd : derived_from now (CkSealed KCookie s) s = true) by (apply derived_from_of; auto).
+      rewrite Hd. unfold spec_code_allowed. rewrite G1, G2, G3, G4. cbn [andb N.eqb Pos.eqb].
+      rewrite <- (rule_passes_spec cfg _ G), RP.
+      assert (E : (now <=? s_lifetime s) = true) by (apply Z.leb_le; exact L). rewrite E.
+      assert (E2 : (s_refresh s <? now) = true) by (apply Z.ltb_lt; exact R). rewrite E2.
+      apply is_nil_false in T. rewrite T, Rok, (Hcalls s eq_refl). reflexivity.
+    + cbn [negb andb]. destruct Sh as [St Bo]. rewrite Bo.
+      apply orb_true_iff. right. apply N.leb_le. exact St.
+  - apply forallb_forall. intros [|s'] Hin; [reflexivity|].
+    destruct (follower_sets lower _ _ _ _ _ _ F Hin) as [-> _]. apply derived_from_of; auto.
 Qed.
 
 (* ---------- /callback ---------- *)
